@@ -5,6 +5,7 @@ package verifharness
 import (
 	"fmt"
 	"reflect"
+	"regexp"
 	"sort"
 	"strings"
 	"unsafe"
@@ -44,6 +45,11 @@ func (d *dumper) dump(v reflect.Value, path string) {
 			d.emit(path, "nil")
 			return
 		}
+		if v.Type() == reflect.TypeOf((*regexp.Regexp)(nil)) {
+			// a compiled regular expression is identified by its source text
+			d.emit(path, "regexp("+(*regexp.Regexp)(unsafe.Pointer(v.Pointer())).String()+")")
+			return
+		}
 		p := v.Pointer()
 		if d.visited[p] {
 			d.emit(path, "<seen>")
@@ -60,6 +66,10 @@ func (d *dumper) dump(v reflect.Value, path string) {
 		d.dump(e, path+"("+e.Type().String()+")")
 	case reflect.Struct:
 		t := v.Type()
+		if pp := t.PkgPath(); strings.Contains(pp, "aho-corasick") || strings.Contains(pp, "jsonschema") || strings.Contains(pp, "binaryregexp") || strings.Contains(pp, "libinjection") {
+			d.emit(path, "<"+t.String()+">") // third-party matcher internals are opaque
+			return
+		}
 		if !v.CanAddr() {
 			// make it addressable so unexported fields can be read
 			c := reflect.New(t).Elem()
